@@ -6,6 +6,7 @@ import (
 	"strings"
 
 	"github.com/iancoleman/strcase"
+	"github.com/pentops/j5/gen/j5/schema/v1/schema_j5pb"
 	"github.com/pentops/j5/lib/j5reflect"
 	"google.golang.org/grpc/codes"
 	"google.golang.org/grpc/status"
@@ -44,6 +45,24 @@ func propertyAtPath(root j5reflect.Root, path string) (j5reflect.Property, error
 	return root.GetProperty(tail)
 }
 
+// queryGoValue converts the text of a query parameter for the field types which
+// are not strings in JSON: booleans are written as true / false.
+func queryGoValue(field j5reflect.Field, value string) interface{} {
+	fieldType := field.FieldSchema()
+	if arrayType, ok := fieldType.(*schema_j5pb.Field_Array); ok && arrayType.Array != nil && arrayType.Array.Items != nil {
+		fieldType = arrayType.Array.Items.Type
+	}
+	if _, ok := fieldType.(*schema_j5pb.Field_Bool); ok {
+		switch value {
+		case "true":
+			return true
+		case "false":
+			return false
+		}
+	}
+	return value
+}
+
 func (c *Codec) decodeQuery(queryString url.Values, msg protoreflect.Message) error {
 	root, err := c.refl.NewRoot(msg)
 	if err != nil {
@@ -69,7 +88,7 @@ func (c *Codec) decodeQuery(queryString url.Values, msg protoreflect.Message) er
 			if len(values) > 1 {
 				return status.Error(codes.InvalidArgument, fmt.Sprintf("multiple values provided for non-repeated field %q", key))
 			}
-			err = scalar.SetGoValue(values[0])
+			err = scalar.SetGoValue(queryGoValue(scalar, values[0]))
 			if err != nil {
 				return status.Error(codes.InvalidArgument, fmt.Sprintf("invalid value %q for field %q", values[0], key))
 			}
@@ -78,7 +97,7 @@ func (c *Codec) decodeQuery(queryString url.Values, msg protoreflect.Message) er
 
 		if array, ok := field.AsArrayOfScalar(); ok {
 			for _, value := range values {
-				_, err = array.AppendGoValue(value)
+				_, err = array.AppendGoValue(queryGoValue(array, value))
 				if err != nil {
 					return status.Error(codes.InvalidArgument, fmt.Sprintf("invalid value %q for field %q", value, key))
 				}
